@@ -153,6 +153,7 @@ class Converter(object):
         self.funcs = []
         self.globals = []
         self.records = {}
+        self.bitfields = {}
         self.enums = {}
         self.typedefs = {}
         self.protos = {}
@@ -274,6 +275,21 @@ class Converter(object):
             if c.get('kind') == 'FieldDecl':
                 ty = c.get('type', {})
                 fields.append((c.get('name'), ty.get('qualType'), ty.get('desugaredQualType'), c.get('id')))
+                if c.get('isBitfield'):
+                    def _val(x):
+                        if isinstance(x, dict):
+                            if 'value' in x and x.get('kind') in ('ConstantExpr', 'IntegerLiteral'):
+                                return x['value']
+                            for y in x.get('inner', []) or []:
+                                v = _val(y)
+                                if v is not None:
+                                    return v
+                        return None
+                    w = _val({'inner': c.get('inner', [])})
+                    try:
+                        self.bitfields[(name, c.get('name'))] = (int(w), ty.get('desugaredQualType') or ty.get('qualType'))
+                    except (TypeError, ValueError):
+                        self.bitfields[(name, c.get('name'))] = (None, ty.get('qualType'))
             self.skip_children(c)
         if name and fields:
             self.records[name] = fields
@@ -736,6 +752,7 @@ def parse_unit(args):
     u.funcs = conv.funcs
     u.globals = conv.globals
     u.records = conv.records
+    u.bitfields = conv.bitfields
     u.enums = conv.enums
     u.typedefs = conv.typedefs
     u.protos = conv.protos
